@@ -87,8 +87,7 @@ def carrier_check(ctx, rule, key, mod, f, call, want_index_var):
     return cexpr.get('c')
 
 
-def d1_layout(ctx, fits):
-    rule = 'C07-D1'
+def d1_layout(ctx, fits, rule='C07-D1', rule2='C07-D2', rule5='C07-D5'):
     f = fits.func('least_squares')
     env = {}
     n = sx(ast.Name(id='n_parms'), env)
@@ -161,11 +160,11 @@ def d1_layout(ctx, fits):
     if not (isinstance(inner, ast.Call) and (fits.dotted(inner.func) or '').endswith('linalg.solve') and len(inner.args) == 2):
         ctx.unrec(rule, key, 'deriv_y is not (-)solve(H, B): %s' % unparse(v))
         return
-    ctx.check('C07-D2', 'fits.py:least_squares#ift-sign', neg, 'deriv_y = - H^-1 B (implicit function theorem)', 'deriv_y = %s has the wrong sign' % unparse(v), fits.loc(dv[0]))
+    ctx.check(rule2, 'fits.py:least_squares#ift-sign', neg, 'deriv_y = - H^-1 B (implicit function theorem)', 'deriv_y = %s has the wrong sign' % unparse(v), fits.loc(dv[0]))
     H, B = inner.args
     hd = find_def(f, unparse(H))
     okh = len(hd) == 1 and unparse(hd[0].value) == 'hessian(chisqfunc)(fitp)'
-    ctx.check('C07-D2', 'fits.py:least_squares#hessian', okh, 'H = hessian(chisq)(fitp)', 'H = %s' % [unparse(h.value) for h in hd], fits.loc(dv[0]))
+    ctx.check(rule2, 'fits.py:least_squares#hessian', okh, 'H = hessian(chisq)(fitp)', 'H = %s' % [unparse(h.value) for h in hd], fits.loc(dv[0]))
     if not (isinstance(B, ast.Subscript) and isinstance(B.slice, ast.Tuple) and len(B.slice.elts) == 2 and all(isinstance(e, ast.Slice) for e in B.slice.elts)):
         ctx.unrec(rule, key, 'mixed block is not M[a:b, c:d]: %s' % unparse(B))
         return
@@ -215,9 +214,9 @@ def d1_layout(ctx, fits):
     iv = unparse(loop.target) if loop is not None else '?'
     okm = mg is not None and unparse(mg) in ('list(deriv_y[%s])' % iv, 'deriv_y[%s]' % iv)
     ctx.check(rule, 'fits.py:least_squares#man_grad-row', okm, 'parameter i gets row i of deriv_y', 'man_grad is %s in a loop over %s' % (unparse(mg), iv), fits.loc(dc))
-    c = carrier_check(ctx, 'C07-D5', 'fits.py:least_squares#carrier', fits, f, dc, iv)
+    c = carrier_check(ctx, rule5, 'fits.py:least_squares#carrier', fits, f, dc, iv)
     if c is not None:
-        ctx.check('C07-D5', 'fits.py:least_squares#carrier-index', unparse(c) == 'fitp[%s]' % iv, 'carrier value is fitp[i] for the same i as the gradient row', 'carrier value %s vs gradient row %s' % (unparse(c), iv), fits.loc(dc))
+        ctx.check(rule5, 'fits.py:least_squares#carrier-index', unparse(c) == 'fitp[%s]' % iv, 'carrier value is fitp[i] for the same i as the gradient row', 'carrier value %s vs gradient row %s' % (unparse(c), iv), fits.loc(dc))
     okr = loop is not None and unparse(loop.iter) == 'range(n_parms)'
     ctx.check(rule, 'fits.py:least_squares#all-parameters', okr, 'one result per parameter', 'result loop runs over %s' % (unparse(loop.iter) if loop is not None else None))
 
@@ -321,8 +320,7 @@ def d4_keyorder(ctx, fits):
     ctx.check(rule, 'fits.py:least_squares#inv-cov-keys', bool(g), 'a user supplied inverse covariance with another key order is rejected', 'no key-order test for inv_chol_cov_matrix')
 
 
-def d6_chisq(ctx, fits):
-    rule = 'C07-D6'
+def d6_chisq(ctx, fits, rule='C07-D6'):
     Y, M, DY, P, PR, DP = sp.symbols('ivars model dy p_masked prior dprior', real=True)
     L = sp.Symbol('chol_inv', commutative=False)
     for q, nd in fits.functions():
@@ -352,6 +350,13 @@ def d6_chisq(ctx, fits):
                 return L
             return None
         tr = Translator(fits, atoms=atoms, free='error', positive=False)
+        # the residual must read data and priors from its arguments: a closure variable breaks the mixed derivative of the compact chi-square
+        closure = [n_.id for n_ in ast.walk(ret.value) if isinstance(n_, ast.Name) and n_.id in ('y_f', 'p_f', 'y_all', 'loc_priors')]
+        if closure:
+            ctx.violated(rule, 'fits.py:%s#reads-arguments' % q, 'the residual reads %s from the enclosing scope instead of its argument (%s): chi-square and minimum are unchanged but the '
+                         'sensitivity d(parameters)/d(data or priors) obtained from the compact chi-square loses that dependence' % (sorted(set(closure)), ', '.join(pn[1:])), fits.loc(ret))
+            continue
+        ctx.holds(rule, 'fits.py:%s#reads-arguments' % q, 'data and priors enter only through the arguments', fits.loc(ret))
         try:
             got = [tr.tr(p) for p in parts]
         except Unrecognised as e:
@@ -552,5 +557,6 @@ SELFTEST = [
     ('prior-range-check', 'pyerrors/fits.py', "            if max(prior_mask) >= n_parms:", "            if max(prior_mask) > n_parms:", 'C07-D9'),
     ('scipy-refinement-uncorr', 'pyerrors/fits.py', "fit_result = scipy.optimize.minimize(chisqfunc, fit_result.x, method=kwargs.get('method'), tol=tolerance)", "fit_result = scipy.optimize.minimize(chisqfunc_uncorr, fit_result.x, method=kwargs.get('method'), tol=tolerance)", 'C07-D10'),
     ('lm-refinement-restart', 'pyerrors/fits.py', "fit_result = scipy.optimize.least_squares(chisqfunc_residuals, fit_result.x, method='lm'", "fit_result = scipy.optimize.least_squares(chisqfunc_residuals_uncorr, fit_result.x, method='lm'", 'C07-D10'),
+    ('residual-closure-prior', 'pyerrors/fits.py', "anp.concatenate((anp.dot(chol_inv, (ivars - model)), (p[prior_mask] - pr) / dp_f))", "anp.concatenate((anp.dot(chol_inv, (ivars - model)), (p[prior_mask] - p_f) / dp_f))", 'C07-D6'),
     ('benign-dof-reorder', 'pyerrors/fits.py', "output.dof = y_all.shape[-1] - n_parms + len(loc_priors)", "output.dof = len(loc_priors) + y_all.shape[-1] - n_parms", 'BENIGN'),
 ]
